@@ -1,12 +1,179 @@
 import GridVerif.Model.Proto
 import GridVerif.Model.Elem
+import GridVerif.Model.Bisect
+import GridVerif.Model.AtomGrid
+import GridVerif.Gen.AngularTables
+import GridVerif.Gen.Presets
 
 namespace GridVerif.Driver.C05
-open GridVerif.Proto
+open GridVerif.Proto GridVerif.AtomGrid GridVerif.Bisect GridVerif.Gen.Presets GridVerif.Gen.Angular
 
-/-- Line-protocol handler of property C05: `C05.<op> args…` ↦ one answer line
-(`none` = malformed, answered `bad-op`). -/
+def tablesOf : String → Option (List (Nat × Nat) × List (Nat × Nat))
+  | "lebedev" => some (lebedevDegrees, lebedevNPoints)
+  | "spherical" => some (sphericalDegrees, sphericalNPoints)
+  | "maxdet" => some (maxdetDegrees, maxdetNPoints)
+  | "ahrens_beylkin" => some (ahrensDegrees, ahrensNPoints)
+  | _ => none
+
+def errTag : Err → Option String
+  | .valueError => some "value-error"
+  | .indexError => some "index-error"
+  | .typeError => some "type-error"
+  | .noData => none
+
+def toV3s : List Float → Option (List (V3 Float))
+  | [] => some []
+  | x :: y :: z :: rest => (toV3s rest).map (⟨x, y, z⟩ :: ·)
+  | _ => none
+
+def pV3 (toks : List String) : Option (V3 Float × List String) :=
+  match toks with
+  | a :: b :: c :: rest => do pure (⟨← pFloat a, ← pFloat b, ← pFloat c⟩, rest)
+  | _ => none
+
+def sV3s (ps : List (V3 Float)) : String :=
+  String.intercalate " " (toString ps.length :: "3" :: (ps.map fun p => s!"{sFloat p.x} {sFloat p.y} {sFloat p.z}"))
+
+/-- `k` then `k` records `degree npts <3*npts floats> <npts floats>` -/
+def pAngular : Nat → List String → Option (List (Nat × List (V3 Float) × List Float) × List String)
+  | 0, rest => some ([], rest)
+  | k + 1, d :: n :: rest => do
+    let d ← pNat d
+    let n ← pNat n
+    if rest.length < 4 * n then none else
+    let ps ← toV3s (← (rest.take (3 * n)).mapM pFloat)
+    let ws ← ((rest.drop (3 * n)).take n).mapM pFloat
+    let (more, tl) ← pAngular k (rest.drop (4 * n))
+    pure ((d, ps, ws) :: more, tl)
+  | _, _ => none
+
+/-- `m` then `m` records `seed <9 floats, row-major>` -/
+def pMats : Nat → List String → Option (List (Nat × M3 Float) × List String)
+  | 0, rest => some ([], rest)
+  | k + 1, s :: rest => do
+    let s ← pNat s
+    let (a, rest) ← pV3 rest
+    let (b, rest) ← pV3 rest
+    let (c, rest) ← pV3 rest
+    let (more, tl) ← pMats k rest
+    pure ((s, ⟨a, b, c⟩) :: more, tl)
+  | _, _ => none
+
+def pPairsIntBool : Nat → List String → Option (List (Int × Bool) × List String)
+  | 0, rest => some ([], rest)
+  | k + 1, i :: b :: rest => do
+    let i ← pInt i
+    let b ← match b with | "1" => some true | "0" => some false | _ => none
+    let (more, tl) ← pPairsIntBool k rest
+    pure ((i, b) :: more, tl)
+  | _, _ => none
+
+def zeroM : M3 Float := ⟨⟨0, 0, 0⟩, ⟨0, 0, 0⟩, ⟨0, 0, 0⟩⟩
+
+def pRequest (kind : String) (xs : List Nat) : Option Request :=
+  match kind with
+  | "deg" => some (.degrees xs)
+  | "size" => some (.sizes xs)
+  | _ => none
+
+def sRequest : Request → String
+  | .degrees ds => "degrees " ++ sNats ds
+  | .sizes ss => "sizes " ++ sNats ss
+
+def findEntry (p : Preset) (z : Nat) : Option Entry :=
+  entries.find? fun e => e.preset == p && e.atnum == z
+
 def handle : List String → Option String
+  | "C05.build" :: m :: kind :: rest => do
+    let (dg, np) ← tablesOf m
+    let (reqs, rest) ← pVec pNat rest
+    let req ← pRequest kind reqs
+    let rot :: rest := rest | none
+    let rotate ← pNat rot
+    let (c, rest) ← pV3 rest
+    let (rs, rest) ← pVec pFloat rest
+    let (ws, rest) ← pVec pFloat rest
+    if rs.length ≠ ws.length then none else
+    let k :: rest := rest | none
+    let (ang, rest) ← pAngular (← pNat k) rest
+    let k :: rest := rest | none
+    let (mats, rest) ← pMats (← pNat k) rest
+    let k :: rest := rest | none
+    let (sgs, rest) ← pPairsIntBool (← pNat k) rest
+    if rest ≠ [] then none else
+    let env : Env Float := {
+      degreesTbl := dg, npointsTbl := np,
+      load := fun d => (ang.find? fun q => q.1 == d).map fun q => q.2,
+      rotation := fun s => ((mats.find? fun q => q.1 == s).map (·.2)).getD zeroM }
+    match init env (rs.zip ws) req c rotate with
+    | .error e => errTag e
+    | .ok g =>
+      -- every seed the model asks for must have been supplied: the default matrix is never used
+      -- (matrices do not influence which exception is raised, so errors are answered above)
+      let need := (if rotates rotate then (List.range rs.length).map (shellSeed rotate) else []) ++
+        (if shellGridRotates rotate then
+          sgs.filterMap fun (i, _) => if 0 ≤ i ∧ i < rs.length then some (shellGridSeed rotate i.toNat) else none
+         else [])
+      if need.any fun s => (mats.find? fun q => q.1 == s).isNone then none else
+      let sg ← sgs.mapM fun (i, b) =>
+        match getShellGrid env g i b with
+        | .ok (p, w) => some s!"sg-ok {sV3s p} {sFloats w}"
+        | .error e => (errTag e).map ("sg-" ++ ·)
+      pure (String.intercalate " "
+        (["ok", sNats g.indices, sNats g.degrees, toString g.size, sV3s g.points, sFloats g.weights] ++ sg))
+  | "C05.sectors" :: rest => do
+    let (rp, rest) ← pVec pFloat rest
+    let (bs, rest) ← pVec pFloat rest
+    let (ds, rest) ← pVec pNat rest
+    if rest ≠ [] then none else
+    match findDegreesForRadialPoints rp bs ds with
+    | .ok v => pure ("ok " ++ sNats v)
+    | .error e => errTag e
+  | "C05.pruned" :: m :: kind :: rest => do
+    let (dg, np) ← tablesOf m
+    let (sect, rest) ← pVec pNat rest
+    let req ← pRequest kind sect
+    let r :: rest := rest | none
+    let radius ← pFloat r
+    let (rsect, rest) ← pVec pFloat rest
+    let (rp, rest) ← pVec pFloat rest
+    if rest ≠ [] then none else
+    match generateDegreeFromRadius dg np rp radius rsect req with
+    | .ok v => pure ("ok " ++ sNats v)
+    | .error e => errTag e
+  | "C05.preset" :: p :: z :: m :: rest => do
+    let p ← Preset.ofName? p
+    let z ← pNat z
+    let (_, np) ← tablesOf m
+    let (rp, rest) ← pVec pFloat rest
+    if rest ≠ [] then none else
+    match findEntry p z with
+    | none => pure "key-error"
+    | some e =>
+      match presetRequest dyadicToFloat np e rp with
+      | .ok r => pure ("ok " ++ sRequest r)
+      | .error err => errTag err
+  | ["C05.branch", p, z] => do
+    let p ← Preset.ofName? p
+    let z ← pNat z
+    pure (if takesShellCountBranch p z then "ok shell-count" else "ok sector")
+  | ["C05.prescribed", p, z] => do
+    let p ← Preset.ofName? p
+    let z ← pNat z
+    match findEntry p z with
+    | none => pure "key-error"
+    | some e =>
+      match prescribedSize e with
+      | some n => pure s!"ok {n}"
+      | none => pure "ok none"
+  | ["C05.entry", p, z] => do
+    let p ← Preset.ofName? p
+    let z ← pNat z
+    match findEntry p z with
+    | none => pure "key-error"
+    | some e =>
+      pure (String.intercalate " " ["ok", toString e.lenRad, toString e.lenNpt, if e.radIsInt then "1" else "0",
+        toString e.radSum, sNats e.npt, sFloats (e.radSectors.map dyadicToFloat)])
   | _ => none
 
 end GridVerif.Driver.C05
